@@ -5,7 +5,7 @@ from props._semprop import simple
 from common import prove
 
 MODULE = 'Proofs.Props.C02'
-THEOREMS = ['Facto.get_evalArith_each', 'Facto.get_evalDecider_gate', 'Facto.get_evalNode_beach', 'Facto.get_evalNode_bfilter_copy', 'Facto.get_evalNode_bgate', 'Facto.beach_support_subset', 'Facto.bfilter_support_subset', 'Facto.rule_each_arith', 'Facto.rule_bundle_gate', 'Facto.SigMap.get_append', 'Facto.SigMap.mem_support', 'Facto.SigMap.get_map_support', 'Facto.carries_sound', 'Facto.readsSum_sound', 'Facto.get_evalDecider_each1', 'Facto.checkQuant_core', 'Facto.sound_anyCmp', 'Facto.sound_allCmp', 'Facto.partsEnts_sound', 'Facto.checkSum_sound', 'Facto.checkMany_sound', 'Facto.checkAll_sound', 'Facto.bundle_end_to_end', 'Facto.wiresum_end_to_end', 'Facto.scalar_end_to_end', 'Facto.observed_bundle_end_to_end', 'Facto.observed_wiresum_end_to_end', 'Facto.constMaps_sound', 'Facto.constPairs_sound', "Facto.bundle_history_end_to_end"]
+THEOREMS = ['Facto.get_evalArith_each', 'Facto.get_evalDecider_gate', 'Facto.get_evalNode_beach', 'Facto.get_evalNode_bfilter_copy', 'Facto.get_evalNode_bgate', 'Facto.beach_support_subset', 'Facto.bfilter_support_subset', 'Facto.rule_each_arith', 'Facto.rule_bundle_gate', 'Facto.SigMap.get_append', 'Facto.SigMap.mem_support', 'Facto.SigMap.get_map_support', 'Facto.carries_sound', 'Facto.readsSum_sound', 'Facto.get_evalDecider_each1', 'Facto.checkQuant_core', 'Facto.sound_anyCmp', 'Facto.sound_allCmp', 'Facto.partsEnts_sound', 'Facto.checkSum_sound', 'Facto.checkMany_sound', 'Facto.checkAll_sound', 'Facto.bundle_end_to_end', 'Facto.wiresum_end_to_end', 'Facto.scalar_end_to_end', 'Facto.observed_bundle_end_to_end', 'Facto.observed_wiresum_end_to_end', 'Facto.constMaps_sound', 'Facto.constPairs_sound', "Facto.bundle_history_end_to_end", "Facto.bundle_end_to_end_pruned", "Facto.bundle_end_to_end_cone", "Facto.observed_bundle_end_to_end_pruned"]
 
 
 def run(res, tier):
